@@ -3,7 +3,7 @@ use super::c06::gen_any_workspace;
 use super::parse_common::corpus;
 use crate::engine::idehost::*;
 use crate::engine::*;
-use crate::gen::scoped::Workspace;
+use crate::gen::scoped::{OccTier, ScopedWs, Workspace};
 use crate::Property;
 use ide::{Analysis, FileId, FilePos, GotoDefinitionResult};
 use serde_json::{json, Value};
@@ -89,7 +89,7 @@ fn all_ident_tokens(ws: &Workspace) -> Vec<Tok> {
 }
 
 /// Check one rename; Ok(Some(nontrivial)) when a rename was performed.
-fn check_rename(ctx: &mut Ctx, ws: &Workspace, an: &Analysis, d0: &BTreeMap<Tok, Option<Vec<Tok>>>, diag0: &[(u32, u32, u32, String)], t: Tok) -> Result<Option<bool>, Failure> {
+fn check_rename(ctx: &mut Ctx, ws: &Workspace, sw: Option<&ScopedWs>, an: &Analysis, d0: &BTreeMap<Tok, Option<Vec<Tok>>>, diag0: &[(u32, u32, u32, String)], t: Tok) -> Result<Option<bool>, Failure> {
     let text = |tk: Tok| -> &str { ws.files[tk.0 as usize].text.get(tk.1 as usize..tk.2 as usize).unwrap_or("?") };
     let old = text(t).to_string();
     let fpos = FilePos::new(FileId(t.0), TextSize::from((t.1 + t.2) / 2));
@@ -153,6 +153,39 @@ fn check_rename(ctx: &mut Ctx, ws: &Workspace, an: &Analysis, d0: &BTreeMap<Tok,
     }
     if !eset.contains(&t) {
         return Err(fail("the token rename was asked from is not among the edits".to_string(), "cursor-not-renamed"));
+    }
+    // (3') ground truth, when the workspace comes undamaged from the scope-aware generator: the
+    // edits are exactly the occurrences Gleam binds to the same declaration under that spelling
+    // (occurrences in constructs glas does not lower are left out of the comparison).
+    if let Some(sw) = sw {
+        if let Some(o) = sw.occs.iter().find(|o| o.file as u32 == t.0 && o.range.0 as u32 == t.1 && o.range.1 as u32 == t.2) {
+            if let (Some(d), OccTier::Core) = (o.expected, o.tier) {
+                let weak: BTreeSet<Tok> = sw.occs.iter().filter(|x| x.tier == OccTier::Weak).map(|x| (x.file as u32, x.range.0 as u32, x.range.1 as u32)).collect();
+                let truth: BTreeSet<Tok> = sw
+                    .occs
+                    .iter()
+                    .filter(|x| x.expected == Some(d) && x.text == old && x.tier == OccTier::Core)
+                    .map(|x| (x.file as u32, x.range.0 as u32, x.range.1 as u32))
+                    .collect();
+                let got: BTreeSet<Tok> = eset.iter().copied().filter(|x| !weak.contains(x)).collect();
+                if got != truth {
+                    let missing: Vec<&Tok> = truth.difference(&got).collect();
+                    let extra: Vec<&Tok> = got.difference(&truth).collect();
+                    return Err(fail(
+                        format!(
+                            "by Gleam's scoping the {} `{}` has the occurrences {:?}; the edits miss {:?} and wrongly include {:?}",
+                            sw.decls[d].kind.name(),
+                            sw.decls[d].name,
+                            truth,
+                            missing,
+                            extra
+                        ),
+                        "edits-vs-ground-truth",
+                    ));
+                }
+                ctx.class("rename compared with generator ground truth");
+            }
+        }
     }
     // (4)+(5) re-analyse the edited workspace
     let ws2 = apply(ws, &edits);
@@ -227,7 +260,7 @@ fn check_rename(ctx: &mut Ctx, ws: &Workspace, an: &Analysis, d0: &BTreeMap<Tok,
     Ok(Some(eset.len() >= 2 || files.len() >= 2))
 }
 
-pub fn check_workspace(ctx: &mut Ctx, ws: &Workspace, c: &mut Choices, max_renames: usize, origin: &str) -> Result<(), Failure> {
+pub fn check_workspace(ctx: &mut Ctx, ws: &Workspace, sw: Option<&ScopedWs>, c: &mut Choices, max_renames: usize, origin: &str) -> Result<(), Failure> {
     let host = build_host(ws);
     let an = host.snapshot();
     let all = all_ident_tokens(ws);
@@ -250,7 +283,7 @@ pub fn check_workspace(ctx: &mut Ctx, ws: &Workspace, c: &mut Choices, max_renam
         if done >= max_renames {
             break;
         }
-        if let Some(nt) = check_rename(ctx, ws, &an, &d0, &diag0, all[i])? {
+        if let Some(nt) = check_rename(ctx, ws, sw, &an, &d0, &diag0, all[i])? {
             done += 1;
             if nt {
                 ctx.nontrivial(mix64(wh ^ i as u64));
@@ -281,8 +314,8 @@ impl Property for C07 {
         ctx.run_streams("c07-ws", cases, 700, |ctx, bytes| {
             ctx.mark(&json!({"stream": hex(bytes)}));
             let mut c = Choices::new(bytes);
-            let (ws, _sw, origin) = gen_any_workspace(&mut c, &corpus_files, true);
-            check_workspace(ctx, &ws, &mut c, per, origin)?;
+            let (ws, sw, origin) = gen_any_workspace(&mut c, &corpus_files, true);
+            check_workspace(ctx, &ws, sw.as_ref(), &mut c, per, origin)?;
             ctx.class(&format!("workspace: {}", origin));
             ctx.sample(origin, || json!({"files": ws.files.iter().filter(|f| f.module.is_some()).map(|f| json!({"path": f.path, "text": clip(&f.text, 300)})).collect::<Vec<_>>()}));
             Ok(())
@@ -292,8 +325,8 @@ impl Property for C07 {
         if let Some(h) = case.get("stream").and_then(|s| s.as_str()) {
             let bytes = unhex(h);
             let mut c = Choices::new(&bytes);
-            let (ws, _sw, origin) = gen_any_workspace(&mut c, &corpus(), true);
-            return check_workspace(ctx, &ws, &mut c, 80, origin);
+            let (ws, sw, origin) = gen_any_workspace(&mut c, &corpus(), true);
+            return check_workspace(ctx, &ws, sw.as_ref(), &mut c, 80, origin);
         }
         let ws = ws_from_json(&case["workspace"]);
         let host = build_host(&ws);
@@ -305,6 +338,6 @@ impl Property for C07 {
         }
         let diag0 = diags(&an, &ws);
         let t = (case["token"][0].as_u64().unwrap_or(0) as u32, case["token"][1].as_u64().unwrap_or(0) as u32, case["token"][2].as_u64().unwrap_or(0) as u32);
-        check_rename(ctx, &ws, &an, &d0, &diag0, t).map(|_| ())
+        check_rename(ctx, &ws, None, &an, &d0, &diag0, t).map(|_| ())
     }
 }
